@@ -44,7 +44,7 @@ def strategy_(draw):
     variant = draw(st.sampled_from(["standard", "standard", "alpha", "simple", "rescale", "reject-missing", "reject-outside"]))
     c = {
         "table": spec,
-        "container": draw(st.sampled_from(["dict", "dataframe"])),
+        "container": draw(st.sampled_from(["dict", "dataframe", "dataframe-offset-index"])),
         "variant": variant,
         "pair": draw(tables.pressure_pair()),
         "queries": [draw(st.one_of(st.floats(-0.5, 2.0), st.floats(-1e300, 1e300), st.sampled_from([0.0, 1.0, -1e-300, 1e-300]))) for _ in range(8)],
